@@ -23,7 +23,11 @@ RULE = ("fault script = (send-outcome bits, connect-outcome bits), consumed from
         "after normalisation (no trailing ok, connect bits that can never be consumed dropped) x engine activity scripts "
         "(arming at boot or 1 s into the run; Stop never / at the arming instant / when the runner enters Failed, "
         "Disconnected, Reconnecting, CatchingUp, Reconnected (+0/0.15 s); optional second run) x seeded reply latencies "
-        "from {0,1,20,50 ms}, connect latencies and runner back-off (release orders). evaluations = scenario runs; "
+        "from {0,1,20,50 ms}, connect latencies and runner back-off (release orders); plus LATE-REPLY variants: ALL scripts "
+        "with >= 1 send failure of total length <= 6 (quick; 5 for the 4 further activities) / <= 8, 7, 5 (thorough) in "
+        "which a seeded 25 % of the failing and 4 % of the succeeding sends issued after the arming point - in any "
+        "runner state, CatchingUp included - get their reply (exception / success) only after 0.6*W, W+1.5, 2W+2.5 or "
+        "3W+3.5 virtual seconds (W = max back-off: around and beyond a whole reconnect + catch-up cycle). evaluations = scenario runs; "
         "distinct non-trivial = distinct interleavings (hash of the order of send/fate, reply, buffer, state and connect "
         "events with message types) containing at least one scripted failure")
 ASSUMPTIONS = [
@@ -41,9 +45,15 @@ ASSUMPTIONS = [
     "engine_runner.random is bound to a seeded Random (reconnect back-off 0.5..MAX s); the quick tier sets "
     "engine_runner.MAX_RECONNECT_WAIT_SECONDS = 4 to shorten outages, the thorough tier keeps the shipped 10",
     "mechanism classifiers read harness-side facts only (production route, runner state at send, alive task names)",
+    "late replies: the fate of a message is still fixed and logged at send_async call time; a reply that is held back for "
+    "seconds models a request hanging on a dead (or slow) connection until a transport time-out. A scenario ends only "
+    "after every late reply was released and the runner was steady for 2 further seconds (>= 6 steady-state rounds)",
 ]
 REQUIRED = {"runs": 500, "runs_with_failure": 300, "reconnected_transitions": 300, "buffered_at_reconnected_checked": 2000,
-            "resent_messages": 1000, "stop_order_checks": 100, "seq_checks": 20000, "end_conservation_checks": 300}
+            "resent_messages": 1000, "stop_order_checks": 100, "seq_checks": 20000, "end_conservation_checks": 300,
+            "late_runs": 300, "late_failure_replies": 300, "late_failure_replies_after_full_reconnect_cycle": 40,
+            "late_failure_replies_for_sends_in_catchingup": 30, "late_failure_replies_arriving_in_reconnected": 30,
+            "late_success_replies": 100, "late_failed_messages_delivered_later": 300}
 EXHAUSTIVE_ALL = False
 
 KNOWN_DIRECT = "C27.direct_send_during_catchup_overtakes_buffer"
@@ -108,13 +118,32 @@ def _bound(tier, ai):
     return 10 if ai in CORE3 else 9 if ai < 7 else 7
 
 
+def _late_bound(tier, ai):
+    """script length bound of the late-reply variants for activity #ai"""
+    if tier == "quick":
+        return 6 if ai in CORE3 else 5
+    return 8 if ai in CORE3 else 7 if ai < 7 else 5
+
+
+def late_spec(max_wait):
+    w = float(max_wait)
+    return {"p_fail": 0.25, "p_ok": 0.04, "delays": [round(0.6 * w, 3), w + 1.5, w + 1.5, 2 * w + 2.5, 3 * w + 3.5]}
+
+
 def plan(tier, seed):
     acts = activities(tier)
     cases = []
+    mw = 4 if tier == "quick" else 10
     for ai, act in enumerate(acts):
         for pi, (s, c) in enumerate(patterns(_bound(tier, ai), act["arm"] == "boot")):
-            cases.append({"send": s, "conn": c, "act": act, "max_wait": 4 if tier == "quick" else 10,
+            cases.append({"send": s, "conn": c, "act": act, "max_wait": mw,
                           "seed": (seed * 1000003 + ai * 7919 + pi) & 0x7FFFFFFF})
+    # late-reply variants (appended: the cases above are what they were before)
+    for ai, act in enumerate(acts):
+        for pi, (s, c) in enumerate(patterns(_late_bound(tier, ai), act["arm"] == "boot")):
+            if False in s:
+                cases.append({"send": s, "conn": c, "act": act, "max_wait": mw, "late": late_spec(mw),
+                              "seed": (seed * 1000003 + ai * 7919 + pi + 500009) & 0x7FFFFFFF})
     nshards = 16 if tier == "quick" else 64
     shards = [{"seed": seed, "tier": tier, "cases": cases[i::nshards], "n_acts": len(acts)} for i in range(nshards)]
     return [s for s in shards if s["cases"]]
@@ -139,6 +168,8 @@ def check_trace(case, out, res: Result):
     order_sig = []
     cutoff = len(log)
     reconnected = []
+    lates: dict = {}            # message id -> (log index of the send, fate ok, runner state at send)   [last late send]
+    late_replies: list = []     # (log index, message id, fate ok, runner state at send, runner state at arrival)
     for i, e in enumerate(log):
         k = e[0]
         if k == "prod":
@@ -165,6 +196,11 @@ def check_trace(case, out, res: Result):
                 reconnected.append(i)
         elif k == "connect":
             order_sig.append(("c", e[1]))
+        elif k == "late":
+            lates[e[1]] = (i, e[2], e[4])
+            order_sig.append(("L", info[e[1]][0], e[2]))
+        elif k == "late_reply":
+            late_replies.append((i, e[1], e[2], e[3], e[4]))
         elif k == "cutoff":
             cutoff = i
     ihash = hashlib.sha1(repr(order_sig).encode()).hexdigest()[:16]
@@ -313,6 +349,24 @@ def check_trace(case, out, res: Result):
                            f"the runner stays in state {out.get('final_state')} forever; {desc}"))
     if out.get("shutdown_exc"):
         res.count("shutdown_raised")
+    # counters proving that the late-reply workload ran (facts of the harness log only)
+    if case.get("late"):
+        res.count("late_runs")
+        for (i_r, mid, ok, st_send, st_arr) in late_replies:
+            if ok:
+                res.count("late_success_replies")
+                continue
+            res.count("late_failure_replies")
+            res.count("late_failure_replies_arriving_in_" + str(st_arr).lower())
+            if st_send == "CatchingUp":
+                res.count("late_failure_replies_for_sends_in_catchingup")
+            # the send that this reply belongs to: the last send of the message before the reply
+            i_s = max((x[0] for x in sends.get(mid, []) if x[0] < i_r), default=None)
+            if i_s is not None and any(i_s < r < i_r for r in reconnected):
+                # the runner went through (at least) one complete Failed -> ... -> Reconnected cycle while the request hung
+                res.count("late_failure_replies_after_full_reconnect_cycle")
+            if any(x[2] and x[0] > i_r for x in sends.get(mid, [])):
+                res.count("late_failed_messages_delivered_later")
     # counters describing the scenario
     cons = out.get("consumed", [])
     nontrivial = any(x.endswith("-") for x in cons)
